@@ -294,6 +294,44 @@ def gen(rng, size=1.0, flags=None):
     return g.program()
 
 
+def gen_shadowed(rng, size=1.0):
+    """A program whose shadow blocks print calls of their function (so the compile-time evaluator's transcript is visible
+    with --verbose) and whose main performs exactly the same calls in the same order (so the compiled program's stdout is
+    the same transcript when the two agree).  Returns (text, calls) with calls = [(fn, call text)]."""
+    g = G(rng, None, size)
+    text, flags = g.program()
+    lines = text.split("\n")
+    calls = []
+    out = []
+    for ln in lines:
+        m = None
+        for (name, ptys, rty, k) in g.fn_sigs:
+            if ln.strip() == "shadow %s { assert (== 1 1) }" % name:
+                m = (name, ptys, rty)
+        if m is None:
+            out.append(ln)
+            continue
+        name, ptys, rty = m
+        body = []
+        for _ in range(rng.randint(1, 3)):
+            args = []
+            for t in ptys:
+                if t == "int":
+                    args.append(str(rng.choice([0, 1, -1, 2, 7, -13, 100, 2147483647, -2147483648, 9223372036854775807])))
+                elif t == "bool":
+                    args.append(rng.choice(["true", "false"]))
+                else:
+                    args.append('"%s"' % rng.choice(STRS))
+            call = "(%s)" % " ".join([name] + args)
+            calls.append((name, call))
+            body.append("    (println %s)" % call)
+        out.append("shadow %s {\n%s\n    assert (== 1 1)\n}" % (name, "\n".join(body)))
+    text = "\n".join(out)
+    i = text.index("fn main() -> int {")
+    main = "fn main() -> int {\n" + "".join("    (println %s)\n" % c for _, c in calls) + "    return 0\n}\nshadow main { assert (== 1 1) }\n"
+    return text[:i] + main, calls
+
+
 def churn(kind, k):
     """the churn family of C14: values that die each iteration; live objects afterwards must not depend on k"""
     body = {
